@@ -194,7 +194,7 @@ static size_t m_canon(uint8_t *buf, size_t cap)
 
 /* =========================================================== tweakable SKINNY schedules */
 
-enum { T_TKEY, T_TWEAK, T_BADTWEAK, T_ENC, T_BADKEY };
+enum { T_TKEY, T_TWEAK, T_BADTWEAK, T_ENC, T_BADKEY, T_SELFTW };
 typedef struct { int type, a, b; } TOp;
 static TOp t_ops[5000]; static int t_nops;
 static uint8_t (*T_TW)[16]; static int *T_TWLEN, *T_TWNULL; static int t_ntw;
@@ -246,6 +246,12 @@ static void t_build(void)
     t_ops[t_nops].type = T_BADKEY; t_ops[t_nops].a = B - 1; ++t_nops;
     t_ops[t_nops].type = T_BADKEY; t_ops[t_nops].a = 2 * B + 1; ++t_nops;
     t_ops[t_nops].type = T_BADKEY; t_ops[t_nops].a = 3 * B; ++t_nops;
+    if (!t_ctr) {
+        /* the tweak argument points at the schedule's own (public) tweak member: "apply the stored tweak again" with the
+         * full length, "keep its first half" with half the length - the argument is an input like any other */
+        t_ops[t_nops].type = T_SELFTW; t_ops[t_nops].a = B; ++t_nops;
+        t_ops[t_nops].type = T_SELFTW; t_ops[t_nops].a = B / 2; ++t_nops;
+    }
     if (t_ctr) {
         /* data calls through the CTR object, so that a tweak change meets buffered keystream: after the change the
          * stream must continue with the next counter block under the key and the latest tweak only */
@@ -290,6 +296,7 @@ static int t_enabled(int op)
      * buffered keystream of every batch position without multiplying the closure */
     if (t_ops[op].type == T_ENC) return TW.lastop < t_nbase && ((TW.nenc == 0 && TW.ntw <= 1) || (TW.nenc == 1 && TW.nafter == 1));
     if (t_ops[op].type == T_BADKEY) return TW.nenc == 0 && TW.lastop < t_nbase;
+    if (t_ops[op].type == T_SELFTW) return TW.lastop < t_nbase;
     if (TW.nenc == 2 || (TW.nenc == 1 && TW.nafter >= 1)) return 0;
     if (TW.nenc == 1 && t_ops[op].type == T_TWEAK && t_ops[op].a >= t_nbase) return 0;
     /* thorough BYTE tweaks: from a BYTE-tweak state every base operation is taken, but of the 4080 other
@@ -310,6 +317,7 @@ static void t_opname(int op, char *buf, size_t n)
     case T_TWEAK: snprintf(buf, n, "set_tweak(%s,%d)", T_TWNULL[o->a] ? "NULL" : hexs(T_TW[o->a], (size_t)T_TWLEN[o->a]), T_TWLEN[o->a]); break;
     case T_ENC: snprintf(buf, n, "ctr_encrypt(%d)", o->a); break;
     case T_BADKEY: snprintf(buf, n, "INVALID set_tweaked_key(size %d)", o->a); break;
+    case T_SELFTW: snprintf(buf, n, "set_tweak(the schedule's own tweak member,%d)", o->a); break;
     default: snprintf(buf, n, "INVALID set_tweak(%ssize %d)", o->b ? "NULL, " : "", o->a); break;
     }
 }
@@ -350,7 +358,7 @@ static void t_report(const char *cls, int op, const char *fmt, ...)
     const TOp *o = &t_ops[op];
     va_start(ap, fmt); vsnprintf(detail, sizeof(detail), fmt, ap); va_end(ap);
     snprintf(sig, sizeof(sig), "C04/%s%s/%s/%s", cipher_name(t_c), t_ctr ? "-ctr" : "", cls,
-             o->type == T_ENC ? "ctr_encrypt" : o->type == T_TKEY ? "set_tweaked_key" : (o->type == T_TWEAK ? (T_TWNULL[o->a] ? "set_tweak(NULL)" : (T_TWLEN[o->a] < t_bs ? "set_tweak(short)" : "set_tweak")) : (o->type == T_BADKEY ? "invalid-set_tweaked_key" : "invalid-set_tweak")));
+             o->type == T_ENC ? "ctr_encrypt" : o->type == T_TKEY ? "set_tweaked_key" : (o->type == T_TWEAK ? (T_TWNULL[o->a] ? "set_tweak(NULL)" : (T_TWLEN[o->a] < t_bs ? "set_tweak(short)" : "set_tweak")) : (o->type == T_BADKEY ? "invalid-set_tweaked_key" : (o->type == T_SELFTW ? "set_tweak(own member)" : "invalid-set_tweak"))));
     violation(sig, mc_casedesc(), "%s | history: %s", detail, mc_history_text());
 }
 
@@ -425,6 +433,16 @@ static void t_apply(int op, int check)
         else LIB(r = skinny64_set_tweak(&TW.k64, tp, (unsigned)T_TWLEN[o->a]));
         memcpy(TW.tweak, T_TW[o->a], 16);      /* already zero padded; zero for null */
         TW.lastop = o->a; TW.ksoff = t_bs; if (TW.ntw < 2) ++TW.ntw; if (TW.nenc) ++TW.nafter;
+        break; }
+    case T_SELFTW: {
+        uint8_t nt[16];
+        static const uint8_t z16[16] = {0};
+        memset(nt, 0, 16); memcpy(nt, TW.tweak, (size_t)o->a);
+        t_prev_zero = memcmp(TW.tweak, z16, 16) == 0;
+        if (t_c == CK_S128) LIB(r = skinny128_set_tweak(&TW.k128, TW.k128.tweak, (unsigned)o->a));
+        else LIB(r = skinny64_set_tweak(&TW.k64, TW.k64.tweak, (unsigned)o->a));
+        memcpy(TW.tweak, nt, 16);
+        TW.lastop = 2; TW.ksoff = t_bs; if (TW.ntw < 2) ++TW.ntw; if (TW.nenc) ++TW.nafter;
         break; }
     case T_BADKEY:
         if (t_ctr) r = ctr_set_tweaked_key(t_c, &TW.co, KEYS[1], (unsigned)o->a);
